@@ -2,6 +2,7 @@
    the wrappers, Struct, ListValue, Value and Empty.  Definitions only.
 
    json_core2 S nm     every message type of the table is ordinary (code 0) or one of
+                         2 Timestamp, 3 Duration : int64 seconds = 1, int32 nanos = 2, implicit presence
                          4 wrapper   : exactly one field, number 1, implicit presence, scalar (not enum)
                          5 Struct    : exactly one field, number 1, map<string, Value>
                          6 ListValue : exactly one field, number 1, repeated Value
@@ -10,7 +11,10 @@
                          9 Empty     : no field
                        and a group-typed field never refers to a special type.
    json_valid2         json_valid (Json/JsonMsgValid.v) plus, for a Value: exactly one member is set and
-                       a number_value is finite. *)
+                       a number_value is finite; for a Timestamp / Duration: the range conditions of
+                       marshalTimestamp / marshalDuration.
+   codec_ok cd         round-trip hypotheses on the string forms that C22 / C23 own (base64, Timestamp,
+                       Duration). *)
 From Coq Require Import List NArith ZArith Bool.
 From PB Require Import Base.PBytes Wire.WireModel Msg.MsgSchema Msg.MsgValue Msg.MsgUtf8 Msg.MsgValid.
 From PB Require Import Json.RtSchema Json.JsonMsgModel Json.JsonMsgValid Text.TextMsgValid.
@@ -75,6 +79,18 @@ Definition value_shape (nm : names) (fps : list fpair) : bool :=
   | _ => false
   end.
 
+(* Timestamp / Duration: int64 seconds = 1; int32 nanos = 2; (implicit presence) *)
+Definition secs_nanos_shape (fps : list fpair) : bool :=
+  match fps with
+  | [(f1, n1); (f2, n2)] =>
+    (f_num f1 =? 1) && (f_num f2 =? 2) && plain_field f1 && plain_field f2
+    && match f_card f1, f_kind f1, f_card f2, f_kind f2 with
+       | CImp, KS SkInt64, CImp, KS SkInt32 => true
+       | _, _, _, _ => false
+       end
+  | _ => false
+  end.
+
 Definition no_special_groups (nm : names) (fps : list fpair) : bool :=
   forallb (fun p => match f_kind (fst p) with KGrp t => wkt_of nm t =? 0 | _ => true end) fps.
 
@@ -84,6 +100,7 @@ Definition json_core2 (S : schema) (nm : names) : bool :=
     no_special_groups nm fps &&
     match wkt_of nm tid with
     | 0 => true
+    | 2 | 3 => secs_nanos_shape fps
     | 4 => wrapper_shape fps
     | 5 => struct_shape nm fps
     | 6 => listvalue_shape nm fps
@@ -110,4 +127,15 @@ Fixpoint json_valid2 (strict : bool) (eu : bool) (S : schema) (nm : names) (fuel
     Nat.ltb tid (length S)
     && jvalid_body strict eu S nm (json_valid2 strict eu S nm f) tid v
     && (if wkt_of nm tid =? 7 then value_extra v else true)
+    && match wkt_of nm tid, v with
+       | 2, VMsg fs _ => ts_in_range (get_z fs 1) (get_z fs 2)
+       | 3, VMsg fs _ => dur_in_range (get_z fs 1) (get_z fs 2)
+       | _, _ => true
+       end
   end.
+
+(* the string forms owned by C22 / C23, as hypotheses on the codec parameter *)
+Definition codec_ok (cd : jcodec) : Prop :=
+  (forall bs, b64_dec cd (b64_enc cd bs) = Some bs) /\
+  (forall s n, ts_in_range s n = true -> ts_parse cd (ts_fmt cd s n) = Some (s, n)) /\
+  (forall s n, dur_in_range s n = true -> dur_parse cd (dur_fmt cd s n) = Some (s, n)).
